@@ -1,3 +1,3 @@
 #!/bin/bash
 # seedbatch.sh <id>[:<check>] ...  runs lib/seedtest.py for each seeded change
-for x in "$@"; do id=${x%%:*}; chk=${x#*:}; [ "$chk" = "$x" ] && chk=""; python3 lib/seedtest.py $id $chk 2>&1 | tail -2; done
+for x in "$@"; do id=${x%%:*}; chk=${x#*:}; [ "$chk" = "$x" ] && chk=""; chk=${chk//,/ }; python3 lib/seedtest.py $id $chk 2>&1 | tail -4; done
